@@ -201,6 +201,13 @@ def run_case(idx, rng, tier, res):
     from pysmi import error
     base = tempfile.mkdtemp(prefix='verif-c14-', dir=env.scratch_root())
     try:
+        # member times of an archive are local times: run under several zones, with and without
+        # daylight saving rules (POSIX TZ strings need no zone database)
+        tz = rng.choice(['UTC', 'CET-1CEST,M3.5.0,M10.5.0/3', 'EST5EDT,M3.2.0,M11.1.0',
+                         'NZST-12NZDT,M9.5.0,M4.1.0/3', 'IST-5:30'])
+        os.environ['TZ'] = tz
+        time.tzset()
+        res.cell('tz:' + tz.split(',')[0])
         dirs, files = gen_tree(rng)
         o = dict((k, rng.random() < 0.75) for k in ('originalMatching', 'uppercaseMatching',
                                                      'lowcaseMatching', 'fuzzyMatching'))
@@ -209,6 +216,7 @@ def run_case(idx, rng, tier, res):
         exts = list(EXTS)
         index = {}
         recursive = True
+        strict = False
         if kind == 'dir':
             root = os.path.join(base, 'tree')
             files = write_tree(root, dirs, files)
@@ -221,7 +229,10 @@ def run_case(idx, rng, tier, res):
                     for k, v in index.items():
                         f.write('%s %s\n' % (k, v))
             recursive = rng.random() < 0.8
-            reader = FileReader(root, recursive=recursive).setOptions(**o)
+            strict = rng.random() < 0.35
+            reader = FileReader(root, recursive=recursive, ignoreErrors=not strict).setOptions(**o)
+            if strict:
+                res.count('readers_not_ignoring_errors')
             if size_limit:
                 reader.setOptions(maxMibSize=size_limit)
             universe = [(nm, data, mt, len(d)) for d, nm, data, mt in files if recursive or not d]
@@ -253,9 +264,12 @@ def run_case(idx, rng, tier, res):
             except (error.PySmiReaderError, IOError) as exc:
                 got = 'readererror'      # incl. "MIB too large" (ZipReader lets the IOError through)
             except Exception as exc:
-                res.violation('reader_exception', '%s reader raised %s: %s for %r (options %r)' % (
-                    kind, type(exc).__name__, exc, name, o), replay={'name': name, 'options': o},
-                    exc=type(exc).__name__, kind=kind)
+                if strict and type(exc) is error.PySmiError:
+                    got = 'readererror'     # ignoreErrors=False: access problems (incl. oversize) are raised
+                else:
+                    res.violation('reader_exception', '%s reader raised %s: %s for %r (options %r)' % (
+                        kind, type(exc).__name__, exc, name, o), replay={'name': name, 'options': o},
+                        exc=type(exc).__name__, kind=kind)
                 continue
             cell = {'reader': kind, 'name': name, 'options': o, 'recursive': recursive, 'index': index,
                     'files': sorted(set(u[0] for u in universe))[:40]}
